@@ -193,16 +193,24 @@ def check(prop, tier, replay_case=None, replay_config=None):
                 inconclusive.append(f"hook-unattached:{lab}")
 
     findings = [f for f in load_findings() if f["property"] == prop]
-    open_sigs = {f["signature"]: f for f in findings if f.get("status") == "open"}
+    open_sigs = {}
+    for f in findings:
+        if f.get("status") == "open":
+            for sg in ([f["signature"]] if isinstance(f["signature"], str) else f["signature"]):
+                open_sigs[sg] = f
     new, known = [], []
     for sig, v in sorted(viols.items()):
         (known if sig in open_sigs else new).append(v)
 
     rep_dir = os.path.join(common.OUT, "replays", prop)
     os.makedirs(rep_dir, exist_ok=True)
-    for v in known:
-        f = open_sigs[v["sig"]]
-        log(f"KNOWN-FINDING: property={prop} {f['what']} [signature={v['sig']} observed={v['count']}]")
+    if replay_case is None:
+        for f in findings:
+            if f.get("status") != "open":
+                continue
+            sgs = [f["signature"]] if isinstance(f["signature"], str) else f["signature"]
+            n = sum(v["count"] for v in known if v["sig"] in sgs)
+            log(f"KNOWN-FINDING: property={prop} {f['what']} [id={f['id']} observed={n}]")
     for v in new:
         w = v["witnesses"][0]
         path = os.path.join(rep_dir, f"{safe(v['sig'])}.json")
